@@ -29,7 +29,7 @@ COMPONENTS = {
     "real": ["eolib.data.EoWriter", "eolib.data.EoReader", "number and string codecs"],
     "stub_or_harness": ["history generator", "expected-value computation"],
 }
-PROBES = ["scratch_bytearray_reused_by_sender", "mode_toggled_back_between_writes", "output_taken_mid_history", "refused_write_in_history", "very_long_padding", "same_string_written_again", "perfect_fit_padded", "empty_string", "non_cp1252_character", "int_at_max", "trailing_unbounded_string",
+PROBES = ["raw_bytes_result_looked_at_again", "scratch_bytearray_reused_by_sender", "mode_toggled_back_between_writes", "output_taken_mid_history", "refused_write_in_history", "very_long_padding", "same_string_written_again", "perfect_fit_padded", "empty_string", "non_cp1252_character", "int_at_max", "trailing_unbounded_string",
           "y_diaeresis_in_unpadded_string", "empty_padded_string"]
 
 INT_KINDS = ["char", "short", "three", "int"]
@@ -208,6 +208,7 @@ def execute(plan, env):
             return fail("value", "earlier-output", f"the final output does not start with the output taken earlier "
                         f"({keep.hex()[:60]} vs {bytes(out).hex()[:60]})", len(ops))
     r = EoReader(bytes(out))
+    retained = []
     for step, o in enumerate(ops):
         k = o[0]
         if k == "toggle":
@@ -224,7 +225,9 @@ def execute(plan, env):
             if k == "byte":
                 got, want = r.get_byte(), o[1]
             elif k == "bytes":
-                got, want = bytes(r.get_bytes(len(o[1]))), bytes(o[1])
+                raw = r.get_bytes(len(o[1]))
+                retained.append((raw, bytes(o[1]), step))       # looked at again when everything has been read
+                got, want = bytes(raw), bytes(o[1])
             elif k in INT_KINDS:
                 got, want = getattr(r, "get_" + k)(), o[1]
             elif k == "fixed":
@@ -241,6 +244,11 @@ def execute(plan, env):
         if got != want:
             return fail("value", k + ("P" if len(o) > 3 and o[3] else ""),
                         f"item {step} written as {o!r} read back as {got!r}, expected {want!r}", step)
+    for raw, want, at in retained:
+        res.count("probe.raw_bytes_result_looked_at_again")
+        if bytes(raw) != want:
+            return fail("value", "bytes-retained", f"the bytes returned for item {at} ({want.hex()}) read {bytes(raw).hex()} after the "
+                        f"remaining items had been read", at)
     if r.remaining != 0 or r.position != len(out):
         return fail("not-consumed", "end", f"after reading everything remaining={r.remaining} position={r.position} len={len(out)}", len(ops))
     kinds = [o[0] + ("P" if len(o) > 3 and o[3] else "") for o in ops if o[0] not in ("flush", "toggle", "refused_int")] + (["flush"] if taken else [])
